@@ -69,6 +69,36 @@ def r2(ctx):
     else:
       ctx.ob('C12.R2', cb, 'a live deferred request is resumed', False, 'request dropped under facts %s' % fs, 'a request whose call is still pending must be sent')
   ctx.floor('C12.R2', 'resume paths', n, 1)
+  gate_direct(ctx)
+
+
+def gate_direct(ctx, rule='C12.R2'):
+  """The direct (already open) path of the balancer: sinks in front of the balancer may yield (the Kafka router does), so the
+  call may have been completed by its timeout -- its sink stack drained -- before it gets here."""
+  prog = ctx.prog
+  f = prog.func(LB, 'LoadBalancerSink.AsyncProcessRequest')
+  why = ('a request whose caller already has TimeoutError must not be dispatched: it would be transmitted after the timeout (C12) and the member would be charged '
+         'with load that is released through a sink stack nobody will ever pop again (C04)')
+  n = 0
+  for ev, ex in enum_paths(ctx, f):
+    for i, e in enumerate(ev):
+      if e.kind == 'call' and call_attr(e.node) == '_AsyncProcessRequestImpl':
+        n += 1
+        live = False
+        for j, c in enumerate(ev[:i]):
+          if c.kind != 'cond':
+            continue
+          t_ = resolved_text(ev, j, c.node)
+          if 'Deadline.EVENT_KEY' not in t_:
+            continue
+          if (t_.endswith('.Get()') and not t_.startswith('not') and not c.info) or (t_.startswith('not') and t_.endswith('.Get()') and c.info):
+            live = True            # event present and not set
+          if (not t_.endswith('.Get()')) and ((not t_.startswith('not') and not c.info) or (t_.startswith('not') and c.info) or (t_.endswith('isNone') and c.info)):
+            live = True            # no event at all
+        ctx.ob(rule, f, 'an open balancer dispatches a request only if its timeout event is absent or not set', live,
+               'the already-open path calls _AsyncProcessRequestImpl without looking at the timeout event: a call that timed out in a sink in front of the balancer '
+               '(Kafka router: metadata refresh / open continuation) is still dispatched, its member charged +1 for ever', why)
+  ctx.floor(rule, 'direct dispatch paths of the balancer', n, 1)
 
 
 def r4(ctx):
